@@ -314,9 +314,9 @@ Definition unprotect_verify (E : aead) (c : ctx) (protected_message : msg) (requ
           end ;;
   let '(seqno, partial_iv_short, partial_iv_generated_by, rid') := step in
   let external_aad := extract_external_aad (c_alg c) rid' in
-  (* COSE_COUNTERSIGNATURE0 present: `self.alg_signature` on a non-group context raises AttributeError, which the
-     `except NameError` does not catch (open finding C11:unprotect-exception:AttributeError:group-flag) *)
-  if u_group unprotected then Raise AttributeError else
+  (* COSE_COUNTERSIGNATURE0 present on a non-group context: DecodeError "Group messages can not be decoded with this
+     non-group context" (oscore.py:1311-1317; AttributeError before fix 479d37c) *)
+  if u_group unprotected then Raise DecodeError else
   if blen ciphertext <? alg_tag_bytes (c_alg c) + 1 then Raise ProtectionInvalid else    (* "Ciphertext too short" *)
   let aad := build_encrypt0_structure external_aad in
   nonce <- construct_nonce (common_iv c) partial_iv_short partial_iv_generated_by (alg_iv_bytes (c_alg c)) ;;
